@@ -505,13 +505,13 @@ def _cfgs(ctx):
     recs = (None, 1, 2, 3, 5, 12)
     probes = (0, -1, '33554436', '4E7')
     return [
-        (('cfg', 'one', 2, recs, probes), 7),
+        (('cfg', 'one', 2, recs, probes), 6),
         (('cfg', 'one', 1, recs, probes), 6),
-        (('cfg', 'one', 8, recs, probes), 6),
-        (('cfg', 'one', 128, recs, probes), 6),
+        (('cfg', 'one', 8, recs, probes), 5),
+        (('cfg', 'one', 128, recs, probes), 5),
         (('cfg', 'diff', 2, (None, 1, 2, 5), (0,)), 5),
-        (('cfg', 'same', 2, (None, 1, 2, 5), (0,)), 6),
-        (('cfg', 'same', 128, (None, 1, 2, 5), ()), 5),
+        (('cfg', 'same', 2, (None, 1, 2, 5), (0,)), 5),
+        (('cfg', 'same', 128, (None, 1, 2, 5), ()), 4),
     ]
 
 
